@@ -132,7 +132,7 @@ def convert(m, n, sf, df, se, de, mode, wsel, back, **kw):
     src_f, dst_f = SF[sf], DF[df]
     disc = spec_gapdeg(s1) > 0
     if disc and (src_f == "brackets" or dst_f == "brackets"):
-        return ""       # not representable (excluded by the precondition)
+        return "~"       # not representable (excluded by the precondition)
     s2 = c01.S2 if (src_f != "brackets" and dst_f != "brackets") else c01.S2C
     sents = [(7, s1), (12, s2)]
     data = _encode(src_f, [(sid if src_f in ("export", "tigerxml") else None, s) for sid, s in sents], se)
@@ -180,7 +180,7 @@ def chain(m, n, sf, df, cf, wsel, **kw):
     s1 = c01._first(m, n, kw, wsel)
     fa, fb, fc = SF[sf], SF[df], DF[cf]
     if spec_gapdeg(s1) > 0 and "brackets" in (fa, fb, fc):
-        return ""
+        return "~"
     s2 = c01.S2C if "brackets" in (fa, fb, fc) else c01.S2
     sents = [(7, s1), (12, s2)]
     stubs.MemFS.files["a.in"] = _encode(fa, [(sid if fa in ("export", "tigerxml") else None, s) for sid, s in sents], 0)
